@@ -204,9 +204,15 @@ class QueryBuilder:
                 if node["ref"]["k"] == "node":
                     with refinement(self.cond(node["ref"]["cond"])):
                         emit(node["ref"])
+                    for second in node["ref"]["alts"]:       # further `with refinement(...)` blocks of this node
+                        if second.get("edge") == "ref2":
+                            with refinement(self.cond(second["cond"])):
+                                emit(second)
             if not node.get("reflast"):
                 refine()
             for alt in node["alts"]:         # one `with alternative(...)` / `with next_rule(...)` block after the other
+                if alt.get("edge") == "ref2":        # written by the parent as a second refinement block (see below)
+                    continue
                 block = next_rule if alt.get("edge") == "next" else alternative
                 with block(self.cond(alt["cond"])):
                     emit(alt)
